@@ -257,12 +257,12 @@ class DQN(RLAlgorithm):
 
         # Masked random actions
         masked_random_values = torch.rand_like(q_values).masked_fill(
-            (1 - action_mask).bool(), -1.0
+            ~action_mask.bool(), -1.0
         )
         masked_random_actions = torch.argmax(masked_random_values, dim=-1)
 
         # Masked policy actions
-        masked_q_values = q_values.masked_fill((1 - action_mask).bool(), float("-inf"))
+        masked_q_values = q_values.masked_fill(~action_mask.bool(), float("-inf"))
         masked_policy_actions = torch.argmax(masked_q_values, dim=-1)
 
         # actions_random = torch.randint_like(actions, n_act)
